@@ -6,6 +6,8 @@ import (
 	"fmt"
 	"time"
 
+	"github.com/ipfs/go-datastore"
+
 	"verif/vk"
 )
 
@@ -15,6 +17,9 @@ type handlerRec struct {
 	// FailAt: the k-th invocation (1-based) fails; 0 = never. Panic selects panic instead of error.
 	FailAt int
 	Panic  bool
+	// WrapNF: the handler's error wraps datastore.ErrNotFound (a handler cleaning up its own records
+	// in some datastore and propagating that datastore's error)
+	WrapNF bool
 	// FailFromHeight: every invocation for a height >= this fails (0 = off); models a handler that
 	// keeps rejecting a region, so several parallel workers fail in one call
 	FailFromHeight uint64
@@ -63,6 +68,9 @@ func (h *handlerRec) attach(w *World) {
 			h.Calls = append(h.Calls, c)
 			if h.Panic {
 				panic(fmt.Sprintf("vk: injected handler panic at call %d (height %d)", n, height))
+			}
+			if h.WrapNF {
+				return fmt.Errorf("vk: handler's own records of height %d: %w", height, datastore.ErrNotFound)
 			}
 			return errHandler
 		}
